@@ -355,12 +355,17 @@ var grpcMethods = []string{"/pkg.Svc/Get", "/pkg.Svc/ping", "/grpc.health.v1.Hea
 func traceSpecGen(t *rapid.T, label string) traceSpec {
 	s := traceSpec{}
 	s.CustomIDs = rapid.Bool().Draw(t, label+"customIDs")
-	s.Sampling = rapid.SampledFrom([]string{"default", "percent", "percent", "percent", "adaptive", "adaptive+size"}).Draw(t, label+"sampling")
+	s.Sampling = rapid.SampledFrom([]string{"default", "percent", "percent", "percent", "adaptive", "adaptive+size", "percent+size"}).Draw(t, label+"sampling")
 	switch s.Sampling {
-	case "percent":
+	case "percent", "percent+size":
 		s.Percent = rapid.SampledFrom([]int{0, 0, 100, 100, 1, 50, 99, -1}).Draw(t, label+"percent")
 		if s.Percent < 0 {
 			s.Percent = rapid.IntRange(0, 100).Draw(t, label+"percentAny")
+		}
+		if s.Sampling == "percent+size" {
+			// SampleSize "sets the number of requests between two adjustments of the
+			// sampling rate when MaxSamplingRate is set": without it, nothing changes
+			s.Size = rapid.SampledFrom([]int{1, 2, 10, 1000}).Draw(t, label+"size")
 		}
 	case "adaptive":
 		s.Rate = rapid.SampledFrom([]int{1, 2, 50, 1000000}).Draw(t, label+"rate")
@@ -380,7 +385,7 @@ func traceSpecGen(t *rapid.T, label string) traceSpec {
 	switch s.Sampling {
 	case "percent", "adaptive":
 		nopts++
-	case "adaptive+size":
+	case "adaptive+size", "percent+size":
 		nopts += 2
 	}
 	idx := make([]int, nopts)
@@ -446,6 +451,8 @@ func (s traceSpec) build(f optionFuncs) (*traceRT, []middleware.TraceOption) {
 	switch s.Sampling {
 	case "percent":
 		opts = append(opts, f.samplingPercent(s.Percent))
+	case "percent+size":
+		opts = append(opts, f.samplingPercent(s.Percent), f.sampleSize(s.Size))
 	case "adaptive":
 		opts = append(opts, f.maxSamplingRate(s.Rate))
 	case "adaptive+size":
@@ -510,7 +517,7 @@ func (rt *traceRT) expectTraced(path string, in wireTrace) (int, string) {
 	switch rt.spec.Sampling {
 	case "default":
 		return +1, "sampled-default"
-	case "percent":
+	case "percent", "percent+size":
 		if rt.spec.Percent == 0 {
 			return -1, "percent-0"
 		}
